@@ -1,3 +1,4 @@
+pub mod alloc_count;
 pub mod alphabet;
 pub mod curves;
 pub mod evidence;
